@@ -194,3 +194,108 @@ theorem isGenKids_leaves {aw : Bool} {k : String} :
           rw [isGen_leaf h.1.2, isGenKids_leaves (j + 1) ys xs (fun x hx => hl x (List.mem_cons_of_mem _ hx)) h.2]
 
 end AcraModel.Censor
+
+namespace AcraModel.Censor
+open AcraModel Generated.CensorTable AcraModel.Censor.Match
+
+/-! ## 3. `wf` -/
+
+theorem wfFields_get : ∀ (tys : List Ty) (ks : List Tree), wfFields tys ks = true →
+    tys.length = ks.length ∧ ∀ (j : Nat) (ty : Ty) (x : Tree), tys[j]? = some ty → ks[j]? = some x → conforms ty x = true ∧ wf x = true
+  | [], [], _ => by
+    refine ⟨rfl, ?_⟩
+    intro j ty x h
+    simp at h
+  | [], _ :: _, h => by simp [wfFields] at h
+  | _ :: _, [], h => by simp [wfFields] at h
+  | ty :: tys, x :: xs, h => by
+    simp only [wfFields, Bool.and_eq_true] at h
+    obtain ⟨hl, hall⟩ := wfFields_get tys xs h.2
+    refine ⟨by simp [hl], fun j ty' x' hty hx => ?_⟩
+    cases j with
+    | zero =>
+      simp only [List.getElem?_cons_zero, Option.some.injEq] at hty hx
+      subst hty; subst hx; exact h.1
+    | succ j =>
+      simp only [List.getElem?_cons_succ] at hty hx
+      exact hall j ty' x' hty hx
+
+theorem wfElems_mem (e : Ty) : ∀ (ks : List Tree), wfElems e ks = true → ∀ x ∈ ks, conforms e x = true ∧ wf x = true
+  | [], _, x, hx => by cases hx
+  | y :: ys, h, x, hx => by
+    simp only [wfElems, Bool.and_eq_true] at h
+    rcases List.mem_cons.mp hx with e' | e'
+    · subst e'; exact h.1
+    · exact wfElems_mem e ys h.2 x e'
+
+theorem wfAll_mem : ∀ (ks : List Tree), wfAll ks = true → ∀ x ∈ ks, wf x = true
+  | [], _, x, hx => by cases hx
+  | y :: ys, h, x, hx => by
+    simp only [wfAll, Bool.and_eq_true] at h
+    rcases List.mem_cons.mp hx with e' | e'
+    · subst e'; exact h.1
+    · exact wfAll_mem ys h.2 x e'
+
+/-- well-formedness is hereditary -/
+theorem wf_kid {k : String} {ks : List Tree} (h : wf (.node k ks) = true) {x : Tree} (hx : x ∈ ks) : wf x = true := by
+  rw [wf.eq_2] at h
+  split at h
+  · simp only [List.isEmpty_iff] at h; subst h; cases hx
+  · split at h
+    · exact wfAll_mem ks h x hx
+    · split at h
+      · next tys _ =>
+        obtain ⟨i, hi⟩ := List.getElem?_of_mem hx
+        have hl := (wfFields_get tys ks h).1
+        have : i < tys.length := by
+          rw [hl]; exact (List.getElem?_eq_some_iff.mp hi).1
+        exact ((wfFields_get tys ks h).2 i tys[i] x (List.getElem?_eq_getElem this) hi).2
+      · split at h
+        · next e _ => exact (wfElems_mem e ks h x hx).2
+        · cases ks with
+          | nil => cases hx
+          | cons y ys =>
+            cases y with
+            | leaf b => cases ys with
+              | nil => simp only [List.mem_singleton] at hx; subst hx; rfl
+              | cons _ _ => simp [isSingleLeaf] at h
+            | node _ _ => simp [isSingleLeaf] at h
+        · simp at h
+
+/-- a struct node: its children conform to the declared field types -/
+theorem wf_struct {k : String} {ks : List Tree} {tys : List Ty} (h : wf (.node k ks) = true) (hk : fieldTys k = some tys)
+    (hn : (k == "nil") = false) (hl : (k == "list") = false) : wfFields tys ks = true := by
+  rw [wf.eq_2] at h
+  simp only [hn, hl, hk] at h
+  simpa using h
+
+/-- a named slice: its elements conform to the element type -/
+theorem wf_named {k : String} {ks : List Tree} {e : Ty} (h : wf (.node k ks) = true) (hf : fieldTys k = none)
+    (hk : namedTy k = some (some e)) (hn : (k == "nil") = false) (hl : (k == "list") = false) : wfElems e ks = true := by
+  rw [wf.eq_2] at h
+  simp only [hn, hl, hf, hk] at h
+  simpa using h
+
+mutual
+theorem acc_kid_aux : ∀ (t : Tree), Match.acc t = true → ∀ k ks, t = .node k ks → ∀ x ∈ ks, Match.acc x = true
+  | .leaf _, _, _, _, h, _, _ => by cases h
+  | .node k ks, h, k', ks', e, x, hx => by
+    cases e
+    rw [Match.acc.eq_2, Bool.and_eq_true] at h
+    exact accList_mem ks h.2 x hx
+theorem accList_mem : ∀ (ks : List Tree), Match.accList ks = true → ∀ x ∈ ks, Match.acc x = true
+  | [], _, x, hx => by cases hx
+  | y :: ys, h, x, hx => by
+    rw [Match.accList.eq_2, Bool.and_eq_true] at h
+    rcases List.mem_cons.mp hx with e | e
+    · subst e; exact h.1
+    · exact accList_mem ys h.2 x e
+end
+
+theorem acc_kid {k : String} {ks : List Tree} (h : Match.acc (.node k ks) = true) {x : Tree} (hx : x ∈ ks) : Match.acc x = true :=
+  acc_kid_aux _ h k ks rfl x hx
+
+theorem acc_node {k : String} {ks : List Tree} (h : Match.acc (.node k ks) = true) : Match.accNode k ks = true := by
+  rw [Match.acc.eq_2, Bool.and_eq_true] at h; exact h.1
+
+end AcraModel.Censor
